@@ -156,6 +156,12 @@ def run(ctx):
             return len(fonts) - 1
         base = [(f, (lib.REPO / "tests" / "fonts" / f).read_bytes()) for f in SHIPPED if (lib.REPO / "tests" / "fonts" / f).exists()]
         base = [(f, d) for f, d in base if len(d) < 600000 or not q]
+        # hostile class maps (the numbers readClassMap computes with; the first two are the minimised witnesses of the repaired
+        # 16-bit wrap of the offsets-array size)
+        for k in range(30 if q else 600):
+            fi = add_font(fontsynth.gen_classmap_font(r, "wrap" if k == 0 else "wrap1" if k == 1 else None))
+            hl.append("F0=%d,%d,%s;X0;T0;L0" % (fi, r.choice([0, 6]), r.choice("fc")))
+            meta.append(("classmap", None))
         for _ in range(500 if q else 30000):
             name, data = r.choice(base)
             k = r.random()
